@@ -19,7 +19,7 @@ class Interp(ExprMixin, CallMixin, StmtMixin):
         self.contract = contract
         self.ctx = ctx
         self.check_index = contract.safety
-        self.check_div = False
+        self.check_div = contract.options.get('check_div', False)
         self.float_div = contract.options.get('float_div', 'real')
         self.mul_mode = contract.options.get('mul', 'real')
         self.slices_allocate = False
@@ -296,12 +296,14 @@ def check_frame(it, st, con, kind="frame", assume_keys=None):
     if con.options.get("no_frame_check") or con.target.startswith("lemma:"):
         return
     a0 = st.entry.heap.get("$alloc", ctx.initial_array("$alloc"))
+    fully_framed = set()
     for key in sorted(set(st.heap) | set(st.entry.heap)):
         if key == "$alloc":
             continue
         cur = st.heap.get(key)
         old = st.entry.heap.get(key, ctx.initial.get(key))
         if cur is None or old is None or cur is old or cur.eq(old):
+            fully_framed.add(key)
             continue
         if assume_keys is not None and key not in assume_keys:
             continue
@@ -323,8 +325,39 @@ def check_frame(it, st, con, kind="frame", assume_keys=None):
         goal = z3.ForAll([r], body, patterns=pats[:1]) if pats else z3.ForAll([r], body)
         if assume_keys is not None:
             st.assume(goal)
+            if not alts:
+                fully_framed.add(key)
             continue
         ctx.oblige(st, kind, goal, line=None, text="only the locations named in `modifies` change in %s" % key, tag=key)
+    if assume_keys is not None:
+        spec_fun_frames(it, st, fully_framed, a0)
+
+
+def spec_fun_frames(it, st, framed, a0):
+    """heap-dependent uninterpreted spec functions (acmp, cmp_ok, ...) keep their value on arguments that existed at function
+    entry when every heap array they read is unchanged on all objects that existed then (only new objects were added).
+    Footprint assumption: a spec function reads only objects allocated in the heap it is applied to."""
+    ctx = it.ctx
+    for name, fd in sorted(it.reg.funs.items()):
+        if fd.by_value or not fd.heap or fd.definition:
+            continue
+        if any(k not in framed and (k in st.heap and st.entry.heap.get(k, ctx.initial.get(k)) is not None and
+                                    not st.heap[k].eq(st.entry.heap.get(k, ctx.initial.get(k)))) for k in fd.heap):
+            continue
+        cur = [st.harr(k, it.heap_sort(k)) for k in fd.heap]
+        old = [st.entry.heap.get(k, ctx.initial_array(k, it.heap_sort(k))) for k in fd.heap]
+        if all(c.eq(o) for c, o in zip(cur, old)):
+            continue
+        from .ty import sort_of
+        dom = [h.sort() for h in cur] + [sort_of(t) for _, t in fd.params]
+        f = z3.Function(fd.name, *(dom + [sort_of(fd.ret)]))
+        vs = [z3.Const("ff_%s_%s" % (name, n), sort_of(t)) for n, t in fd.params]
+        guard = [z3.And(v >= 1, v < a0) for v, (n, t) in zip(vs, fd.params) if t.kind in ("ref", "list")]
+        ax = z3.ForAll(vs, z3.Implies(z3.And(*guard) if guard else z3.BoolVal(True), f(*(cur + vs)) == f(*(old + vs))),
+                       patterns=[f(*(cur + vs))], qid="specfun_frame_" + name)
+        st.assume(ax)
+        ctx.models_used.add("spec function %s: value on pre-existing arguments is unchanged when only new objects were added to the "
+                            "heap arrays it reads (footprint assumption)" % name)
 
 
 def check_post(it, st, con, result):
